@@ -76,8 +76,16 @@ def remap_curie_prefixes(converter: Converter, remapping: Mapping[str, str]) -> 
                 new_record,
             )
         elif old in intersection:
+            # ``old`` is handed over to the record of the pair remapping onto it, but only
+            # if that pair can be applied. The previous canonical prefix is retained.
+            handed_over = any(
+                value == old and key in converter.synonym_to_prefix
+                for key, value in remapping.items()
+            )
             record.prefix_synonyms = sorted(
-                set(record.prefix_synonyms).difference({old, new_prefix})
+                set(record.prefix_synonyms)
+                .union({record.prefix})
+                .difference({old, new_prefix} if handed_over else {new_prefix})
             )
             record.prefix = new_prefix
         else:
